@@ -62,6 +62,8 @@ struct C<'a> {
     server_silent: bool,
     arp_answer: bool,
     polled_exactly: bool,
+    /// server frames damaged after checksumming (UDP checksum provably wrong): must be equivalent to no frame
+    damaged: Vec<Vec<u8>>,
     idle: u32,
     start_us: i64,
     /// instants of the latest polls (the neighbour-discovery silence of a socket ends exactly 1 s after one)
@@ -152,6 +154,7 @@ pub fn run(tape: &mut Tape, props: Props, thorough: bool, trace_on: bool) -> Out
         server_silent: false,
         arp_answer: true,
         polled_exactly: true,
+        damaged: vec![],
         idle: 0,
         start_us: now,
         recent_polls: Default::default(),
@@ -187,6 +190,26 @@ fn poll(c: &mut C) -> Result<(), Violation> {
             c.arp_pending = false;
         }
         c.hash.bytes(&f);
+        if c.damaged.contains(&f) && c.props.has("C08") {
+            if !c.node.dev.rx.is_empty() {
+                // other frames are due in the same poll: the single-frame check would see their effect; count as lost
+                c.stats.inc("fault.drop");
+                continue;
+            }
+            // C08 clause 3: delivered alone, a frame whose UDP checksum fails changes nothing and is not answered
+            let h = c.h;
+            let before = format!("{:?}", c.node.sockets.get::<dhcpv4::Socket>(h));
+            c.node.dev.rx.push_back(f.clone());
+            let now = c.now;
+            let info = c.node.poll_ingress_single(now)?;
+            let after = format!("{:?}", c.node.sockets.get::<dhcpv4::Socket>(h));
+            c.stats.inc("c08.corrupt-alone-checked");
+            if before != after || !info.tx.is_empty() {
+                let (a, b) = crate::scen_tcp::first_diff(&before, &after);
+                return Err(viol("C08", "corrupt-equals-loss", "C08.corrupt/dhcp-message-with-failing-udp-checksum-accepted", format!("a DHCP server message whose UDP checksum does not verify changed the DHCP client ({} frames transmitted in answer): ..{}.. => ..{}..", info.tx.len(), a, b)));
+            }
+            continue;
+        }
         c.node.dev.rx.push_back(f);
         ingested.push((ai, xid));
         c.stats.inc("frames.delivered");
@@ -597,6 +620,22 @@ fn respond(c: &mut C, d: &Dhcp, mt: u8) -> Result<(), Violation> {
     let ipb = enc_ip(&src, &dst_ip, P_UDP, 64, &udp);
     let l2dst = if dst_ip.is_limited_broadcast() { [0xff; 6] } else { V_MAC };
     let f = enc_eth(l2dst, S_MAC, ETH_IPV4, &ipb);
+    // bit damage after checksumming, inside the DHCP message: the UDP checksum provably fails
+    let (f, ai, valid) = if c.tape.draw(16) == 15 && f.len() > 14 + 20 + 8 + 240 {
+        let mut g = f.clone();
+        let pos = 14 + 20 + 8 + c.tape.draw((g.len() - 42) as u64) as usize;
+        g[pos] ^= 1 << c.tape.draw(8);
+        match crate::world::lenient_decode(Medium::Ethernet, &g) {
+            Err(crate::world::LenientErr::Checksum) => {
+                c.damaged.push(g.clone());
+                c.stats.inc("fault.corrupt-checksum-detectable");
+                (g, None, false)
+            }
+            _ => (f, ai, valid),
+        }
+    } else {
+        (f, ai, valid)
+    };
     let fate = c.tape.draw(10);
     c.stats.inc("dhcp.server-messages");
     if fate == 0 {
